@@ -260,6 +260,67 @@ func (s *Sim) CheckCommit(what string, c *channeldb.ChannelCommitment,
 		return violationf("%s: tx output values %v, model %v", what,
 			gotVals, want)
 	}
+	// BOLT-3 output ordering: value, then script, then (for identical
+	// offered HTLC outputs) CLTV expiry; recorded output indexes must point
+	// at an output of the HTLC's value, one each.
+	outsTx := c.CommitTx.TxOut
+	for i := 1; i < len(outsTx); i++ {
+		a, b := outsTx[i-1], outsTx[i]
+		if a.Value > b.Value || (a.Value == b.Value &&
+			bytes.Compare(a.PkScript, b.PkScript) > 0) {
+
+			return violationf("%s: outputs %d,%d not in BIP69 order",
+				what, i-1, i)
+		}
+	}
+	used := map[int32]bool{}
+	nonDust := map[htlcKey]bool{}
+	for _, h := range e.NonDust {
+		nonDust[htlcKey{h.From != o, h.ID, h.Amt, h.Hash, h.Expiry}] = true
+	}
+	for i := range c.Htlcs {
+		h := &c.Htlcs[i]
+		inc := h.Incoming
+		if !ownerIsLocal {
+			inc = !inc
+		}
+		isNonDust := nonDust[htlcKey{inc, h.HtlcIndex, h.Amt, h.RHash, h.RefundTimeout}]
+		if !isNonDust {
+			if h.OutputIndex >= 0 {
+				return violationf("%s: dust HTLC %d has output "+
+					"index %d", what, h.HtlcIndex, h.OutputIndex)
+			}
+			continue
+		}
+		if h.OutputIndex < 0 || int(h.OutputIndex) >= len(outsTx) ||
+			used[h.OutputIndex] ||
+			outsTx[h.OutputIndex].Value != int64(uint64(h.Amt)/1000) {
+
+			return violationf("%s: HTLC %d (amt %d) recorded output "+
+				"index %d is wrong or shared", what, h.HtlcIndex,
+				h.Amt, h.OutputIndex)
+		}
+		used[h.OutputIndex] = true
+	}
+	for i := range c.Htlcs {
+		for j := range c.Htlcs {
+			h1, h2 := &c.Htlcs[i], &c.Htlcs[j]
+			if h1.OutputIndex < 0 || h2.OutputIndex < 0 || i == j {
+				continue
+			}
+			o1, o2 := outsTx[h1.OutputIndex], outsTx[h2.OutputIndex]
+			if o1.Value == o2.Value && bytes.Equal(o1.PkScript, o2.PkScript) &&
+				h1.RefundTimeout < h2.RefundTimeout &&
+				h1.OutputIndex > h2.OutputIndex {
+
+				return violationf("%s: identical HTLC outputs not "+
+					"ordered by CLTV (BOLT-3): expiry %d at index "+
+					"%d, expiry %d at index %d", what,
+					h1.RefundTimeout, h1.OutputIndex,
+					h2.RefundTimeout, h2.OutputIndex)
+			}
+		}
+	}
 	return nil
 }
 
